@@ -40,10 +40,11 @@ type RecIn struct {
 
 // Row is a stored row of one of the tables.
 type Row struct {
-	Tbl string `json:"tbl"` // recs | bosses | kids | pets
-	ID  int64  `json:"id"`
-	Tag int64  `json:"tag"`
-	Val int64  `json:"val"`
+	Tbl   string `json:"tbl"` // recs | bosses | kids | pets
+	ID    int64  `json:"id"`
+	Tag   int64  `json:"tag"`
+	Val   int64  `json:"val"`
+	Owner int64  `json:"owner,omitempty"` // seeded kids / pets: owner_id (their tag is owner*1000 + j)
 }
 
 // Input is one case.
@@ -64,8 +65,13 @@ type Input struct {
 	Limit  int64   `json:"limit"`   // find: rows with tag <= Limit are selected
 	// FailKind: what a failing hook returns: "" = errors.New-style "E<k>"; otherwise "E<k>: %w" wrapping one
 	// of gorm's own sentinel errors: not_found | invalid_tx | missing_where | invalid_value | empty_slice | invalid_data
-	FailKind string `json:"fail_kind,omitempty"`
-	Batch    int    `json:"batch,omitempty"` // create_in_batches: batch size
+	FailKind    string `json:"fail_kind,omitempty"`
+	Batch       int    `json:"batch,omitempty"`        // create_in_batches: batch size
+	NoReturning bool   `json:"no_returning,omitempty"` // the dialector believes SQLite has no RETURNING: Exec + LastInsertId path of Create
+	Returning   bool   `json:"returning,omitempty"`    // update / delete with Clauses(clause.Returning{})
+	SetAll      bool   `json:"set_all,omitempty"`      // hooks call SetColumn(name, v, true)
+	DelAssoc    int    `json:"del_assoc,omitempty"`    // delete: Select("Kids") = 1, Select("Pets") = 2
+	Preload     bool   `json:"preload,omitempty"`      // find / first: Preload("Kids").Preload("Pets")
 }
 
 // Ev is one hook invocation as the hook itself saw it.
@@ -104,7 +110,9 @@ type Obs struct {
 	Rollbacks int      `json:"rollbacks"`
 	After     []Row    `json:"after"` // all tables afterwards
 	RA        int64    `json:"ra"`
-	Mem       []Row    `json:"mem"` // the in-memory records afterwards (top level): id, tag, val
+	Mem       []Row    `json:"mem"`  // the in-memory records afterwards (top level): id, tag, val
+	Kids      []int64  `json:"kids"` // tags of the Kid / Pet values found in the in-memory records afterwards
+	Pets      []int64  `json:"pets"`
 	Panic     string   `json:"panic"`
 }
 
@@ -118,6 +126,7 @@ type env struct {
 	sets     map[int]bool
 	setKey   string
 	failKind string
+	setAll   bool
 	errs     map[int]error
 	last     error
 }
@@ -148,7 +157,11 @@ func hk(tx *gorm.DB, hook, typ string, tag int64) error {
 	}
 	ev.marker = marker
 	if E.sets[k] && (hook == "BeforeSave" || hook == "BeforeCreate" || hook == "BeforeUpdate") {
-		tx.Statement.SetColumn(E.setKey, int64(1000+k))
+		if E.setAll {
+			tx.Statement.SetColumn(E.setKey, int64(1000+k), true)
+		} else {
+			tx.Statement.SetColumn(E.setKey, int64(1000+k))
+		}
 	}
 	if E.fails[k] {
 		err := fmt.Errorf("E%d", k)
@@ -175,8 +188,8 @@ type World struct {
 	Types map[string]typeInfo
 }
 
-func OpenWorld(dsn string) *World {
-	db, rec, sqlDB, err := gdb.Open(gdb.Opt{DSN: dsn, Config: &gorm.Config{DisableForeignKeyConstraintWhenMigrating: true}})
+func OpenWorld(dsn string, noReturning bool) *World {
+	db, rec, sqlDB, err := gdb.Open(gdb.Opt{DSN: dsn, NoReturning: noReturning, Config: &gorm.Config{DisableForeignKeyConstraintWhenMigrating: true}})
 	if err != nil {
 		panic(err)
 	}
@@ -220,7 +233,13 @@ func (w *World) reset(seed []Row) {
 	}
 	w.SQL.Exec("DELETE FROM sqlite_sequence")
 	for _, r := range seed {
-		if _, err := w.SQL.Exec("INSERT INTO "+r.Tbl+" (id, tag, val) VALUES (?,?,?)", r.ID, r.Tag, r.Val); err != nil {
+		var err error
+		if r.Tbl == "kids" || r.Tbl == "pets" {
+			_, err = w.SQL.Exec("INSERT INTO "+r.Tbl+" (id, tag, val, owner_id) VALUES (?,?,?,?)", r.ID, r.Tag, r.Val, r.Owner)
+		} else {
+			_, err = w.SQL.Exec("INSERT INTO "+r.Tbl+" (id, tag, val) VALUES (?,?,?)", r.ID, r.Tag, r.Val)
+		}
+		if err != nil {
 			panic(err)
 		}
 	}
@@ -259,6 +278,9 @@ func setRec(v reflect.Value, r RecIn) {
 }
 
 // build returns the value to hand to gorm and a reader of the in-memory records afterwards.
+// association values found in the in-memory records by the last mem() call
+var memKids, memPets []int64
+
 func build(t reflect.Type, shape string, recs []RecIn) (arg interface{}, mem func() []Row) {
 	outerPtr := strings.HasPrefix(shape, "ptr_")
 	base := strings.TrimPrefix(shape, "ptr_")
@@ -268,6 +290,18 @@ func build(t reflect.Type, shape string, recs []RecIn) (arg interface{}, mem fun
 				return Row{Tbl: "nil"}
 			}
 			v = v.Elem()
+		}
+		if f := v.FieldByName("Kids"); f.IsValid() {
+			for i := 0; i < f.Len(); i++ {
+				memKids = append(memKids, f.Index(i).FieldByName("Tag").Int())
+			}
+		}
+		if f := v.FieldByName("Pets"); f.IsValid() {
+			for i := 0; i < f.Len(); i++ {
+				if p := f.Index(i); !p.IsNil() {
+					memPets = append(memPets, p.Elem().FieldByName("Tag").Int())
+				}
+			}
 		}
 		return Row{Tbl: "mem", ID: v.FieldByName("ID").Int(), Tag: v.FieldByName("Tag").Int(), Val: v.FieldByName("Val").Int()}
 	}
@@ -352,6 +386,7 @@ func (w *World) Run(in Input) (o Obs) {
 		panic("unknown type " + in.Type)
 	}
 	w.reset(in.Seed)
+	E.rec = w.Rec
 	E.log, E.inv, E.last = nil, 0, nil
 	E.fails, E.sets, E.errs = map[int]bool{}, map[int]bool{}, map[int]error{}
 	for _, k := range in.Fails {
@@ -361,6 +396,7 @@ func (w *World) Run(in Input) (o Obs) {
 		E.sets[k] = true
 	}
 	E.failKind = in.FailKind
+	E.setAll = in.SetAll
 	E.setKey = "Val"
 	if in.SetKey == "db" {
 		E.setKey = "val"
@@ -388,6 +424,9 @@ func (w *World) Run(in Input) (o Obs) {
 				o.Panic = fmt.Sprint(p)
 			}
 		}()
+		if in.Returning {
+			db = db.Clauses(clause.Returning{})
+		}
 		model := func() *gorm.DB { return db.Model(arg) }
 		var payload interface{}
 		payKey := "val"
@@ -417,11 +456,26 @@ func (w *World) Run(in Input) (o Obs) {
 		case "update_columns":
 			res = model().UpdateColumns(payload)
 		case "delete":
-			res = db.Delete(arg)
+			d := db
+			switch in.DelAssoc {
+			case 1:
+				d = d.Select("Kids")
+			case 2:
+				d = d.Select("Pets")
+			}
+			res = d.Delete(arg)
 		case "find":
-			res = db.Where("tag <= ?", in.Limit).Order("tag").Find(arg)
+			q := db.Where("tag <= ?", in.Limit).Order("tag")
+			if in.Preload {
+				q = q.Preload("Kids").Preload("Pets")
+			}
+			res = q.Find(arg)
 		case "first":
-			res = db.Where("tag <= ?", in.Limit).Order(clause.OrderByColumn{Column: clause.Column{Name: "tag"}}).First(arg)
+			q := db.Where("tag <= ?", in.Limit).Order(clause.OrderByColumn{Column: clause.Column{Name: "tag"}})
+			if in.Preload {
+				q = q.Preload("Kids").Preload("Pets")
+			}
+			res = q.First(arg)
 		default:
 			panic("unknown op " + in.Op)
 		}
@@ -492,7 +546,9 @@ func (w *World) Run(in Input) (o Obs) {
 	}
 	flushHooks(len(evs) + 1)
 	o.After = w.dump()
+	memKids, memPets = []int64{}, []int64{}
 	o.Mem = mem()
+	o.Kids, o.Pets = memKids, memPets
 	return o
 }
 
